@@ -91,6 +91,7 @@ import Sds.Proofs.Mapper
 import Sds.Proofs.Glue2
 import Sds.Proofs.Codec2
 import Sds.Proofs.LoadWF
+import Sds.Proofs.SerShapes
 
 namespace Sds.C06
 open Sds Outcome
@@ -696,5 +697,62 @@ example : ∀ m : Mode, (do let b ← RL.runBCalls m [.setLen 10, .set 10 5] {}
                           let (v', r) ← (rlC m).load ((rlC m).ser v ++ [7, 9])
                           return (decide (v' = v), r, (rlC m).size v)) = ok (true, [7, 9], 12) := by
   intro m; cases m <;> decide +kernel
+
+/-! **Field order as extracted from the source on this run.**  `Generated/SerShape.lean` lists, for every
+`impl Serialize` of the library, the statements of `serialize_header` / `serialize_body` in order, the `T::load(reader)?`
+calls of `load` in order and the summands of `size_in_elements` (tools/ser_shape.py).  The obligations below pin them to
+the layouts the codecs of the model implement (the `*_roundtrip` / `*_size` theorems above are about those codecs), so a
+field that is written but not read back, read in another order, or left out of the size stops a named `rfl`. -/
+theorem serializers_as_extracted_from_source :
+    Generated.allSerShapes.length = 14 ∧
+    (Generated.serShape_RawVector.header = [.field "len", .fieldHeader "data"] ∧
+     Generated.serShape_RawVector.body = [.fieldBody "data"] ∧
+     Generated.serShape_RawVector.loads = ["usize", "<Vec<u64> as Serialize>"]) ∧
+    (Generated.serShape_IntVector.header = [.field "len", .field "width", .fieldHeader "data"] ∧
+     Generated.serShape_IntVector.body = [.fieldBody "data"] ∧
+     Generated.serShape_IntVector.loads = ["usize", "usize", "RawVector"]) ∧
+    (Generated.serShape_BitVector.header = [.field "ones"] ∧
+     Generated.serShape_BitVector.body = [.field "data", .field "rank", .field "select", .field "select_zero"] ∧
+     Generated.serShape_BitVector.loads = ["usize", "RawVector", "Option::<RankSupport>",
+       "Option::<SelectSupport<Identity>>", "Option::<SelectSupport<Complement>>"]) ∧
+    (Generated.serShape_SelectSupport_T.body = [.field "samples", .field "long", .field "short"] ∧
+     Generated.serShape_SelectSupport_T.loads = ["IntVector", "IntVector", "IntVector"]) ∧
+    (Generated.serShape_SparseVector.header = [.field "len"] ∧
+     Generated.serShape_SparseVector.body = [.field "high", .field "low"] ∧
+     Generated.serShape_SparseVector.loads = ["usize", "BitVector", "IntVector"]) ∧
+    (Generated.serShape_RLVector.header = [.field "len", .field "ones"] ∧
+     Generated.serShape_RLVector.body = [.field "samples", .field "data"] ∧
+     Generated.serShape_RLVector.loads = ["usize", "usize", "IntVector", "IntVector"]) ∧
+    (Generated.serShape_WaveletMatrix.header = [.field "len"] ∧
+     Generated.serShape_WaveletMatrix.body = [.field "data", .field "first"] ∧
+     Generated.serShape_WaveletMatrix.loads = ["usize", "WMCore", "IntVector"]) ∧
+    (Generated.serShape_WMCore.body = [.localValue "width", .each "levels"] ∧
+     Generated.serShape_WMCore.loads = ["usize", "BitVector"]) :=
+  ⟨rfl, ⟨rfl, rfl, rfl⟩, ⟨rfl, rfl, rfl⟩, ⟨rfl, rfl, rfl⟩, ⟨rfl, rfl⟩, ⟨rfl, rfl, rfl⟩, ⟨rfl, rfl, rfl⟩, ⟨rfl, rfl, rfl⟩,
+   ⟨rfl, rfl⟩⟩
+
+/-- … and the sizes: every field that is written is counted (the `size = elements written` theorems above are about the
+codecs; this pins the code's own `size_in_elements` bodies to the same field lists) -/
+theorem sizes_as_extracted_from_source :
+    Generated.serShape_RawVector.size = ["self.len.size_in_elements()", "self.data.size_in_elements()"] ∧
+    Generated.serShape_IntVector.size =
+      ["self.len.size_in_elements()", "self.width.size_in_elements()", "self.data.size_in_elements()"] ∧
+    Generated.serShape_BitVector.size = ["self.ones.size_in_elements()", "self.data.size_in_elements()",
+      "self.rank.size_in_elements()", "self.select.size_in_elements()", "self.select_zero.size_in_elements()"] ∧
+    Generated.serShape_SelectSupport_T.size = ["self.samples.size_in_elements()", "self.long.size_in_elements()",
+      "self.short.size_in_elements()"] ∧
+    Generated.serShape_SparseVector.size = ["self.len.size_in_elements()", "self.high.size_in_elements()",
+      "self.low.size_in_elements()"] ∧
+    Generated.serShape_RLVector.size = ["self.len.size_in_elements()", "self.ones.size_in_elements()",
+      "self.samples.size_in_elements()", "self.data.size_in_elements()"] ∧
+    Generated.serShape_Vec_V.size = ["1", "self.len() * V::elements()"] ∧
+    Generated.serShape_Vec_u8.size = ["1", "bits::bytes_to_words(self.len())"] :=
+  ⟨rfl, rfl, rfl, rfl, rfl, rfl, rfl, rfl⟩
+
+/-- the codecs of the model write the fields in that order (definitional) -/
+theorem model_codecs_follow_the_extracted_order (s : Sparse) (c : WMCore) :
+    sparseC.ser s = usizeC.ser s.len ++ (bitVectorC.ser s.high ++ intVecC.ser s.low) ∧
+    wmCoreC.ser c = usizeC.ser c.width ++ c.levels.toList.flatMap bitVectorC.ser :=
+  ⟨rfl, rfl⟩
 
 end Sds.C06
